@@ -5,7 +5,7 @@
 V=$(cd "$(dirname "$0")/.." && pwd)
 R="${NIFLY_REPO:-/repo}"
 ALL=0; [ "$1" = "--all" ] && { ALL=1; shift; }
-IDS="$*"; [ -z "$IDS" ] && IDS=$(ls "$V/seeded")
+IDS="$*"; [ -z "$IDS" ] && IDS=$(cd "$V/seeded" && ls -d C?? C??/r* 2>/dev/null)
 CHECKS_ALL="C01 C02 C03 C04 C05 C06 C07 C08 C09 C10 C11 C12 C13 C14 C15 C16 C17 C18 C19 C20"
 for id in $IDS; do
   P="$V/seeded/$id/patch.diff"
